@@ -1051,20 +1051,21 @@ mod race {
     use std::time::Duration;
 
     #[derive(Default)]
-    struct St { paused: [Option<&'static str>; 2], go: [bool; 2], done: [bool; 2], holds: [bool; 2] }
+    struct St { paused: [Option<&'static str>; 2], go: [bool; 2], done: [bool; 2] }
     struct Ctl { m: StdMutex<St>, cv: Condvar }
     thread_local! { static TID: Cell<Option<usize>> = const { Cell::new(None) }; }
 
     fn park(ctl: &Ctl, t: usize, name: &'static str) {
         let mut g = ctl.m.lock().unwrap();
-        if name.ends_with(":unlocked") { g.holds[t] = false; }
         g.paused[t] = Some(name);
         ctl.cv.notify_all();
         while !g.go[t] { g = ctl.cv.wait(g).unwrap(); }
         g.go[t] = false;
         g.paused[t] = None;
-        if name.ends_with(":before-lock") { g.holds[t] = true; }
     }
+    /// yield points that lie INSIDE a latch critical section (everything except the start of the call and the
+    /// point right before `probation.lock()`): a thread parked there must hold the probation mutex
+    fn interior(name: &str) -> bool { name != "start" && !name.ends_with(":before-lock") }
 
     #[derive(Clone, Debug, PartialEq)]
     pub enum Api { Sig(u8, u16), Reset, Pair(u8, u16) }
@@ -1108,8 +1109,16 @@ mod race {
     }
     fn final_text(conn: &IceConn) -> String { observe(conn, "-").text(None).0 }
 
-    /// Runs the schedule; `Err` if a released thread neither reached a point nor finished in time.
-    pub fn exec(c: &RaceCase) -> Result<String, String> {
+    pub struct RaceOut { pub state: String, pub violations: Vec<(String, String)>, pub blocked_seen: u64 }
+
+    /// Runs the schedule on the real code. A pick RELEASES the thread from its yield point. Mutual exclusion
+    /// is OBSERVED, not assumed: the probation mutex is probed with `verif_probation_locked` —
+    ///  * a thread parked at an interior point of its critical section must hold the mutex (probe = locked);
+    ///  * a thread released at `…:before-lock` while the mutex is held must NOT reach its next point before the
+    ///    holder has finished (it is then `blocked`; it proceeds by itself once the holder is done, exactly as
+    ///    `LatchRace.pickR/pickA` say).
+    /// `Err` if a released thread neither reached a point nor finished in time.
+    pub fn exec(c: &RaceCase) -> Result<RaceOut, String> {
         let conn = build(&c.setup);
         let ctl = Arc::new(Ctl { m: StdMutex::new(St::default()), cv: Condvar::new() });
         let ctl_h = ctl.clone();
@@ -1122,47 +1131,67 @@ mod race {
                 park(&ctl, t, "start");
                 if t == 0 { do_pkt(&conn, &pk) } else { do_api(&conn, &api) }
                 let mut g = ctl.m.lock().unwrap();
-                g.done[t] = true; g.holds[t] = false; g.paused[t] = None;
+                g.done[t] = true; g.paused[t] = None;
                 ctl.cv.notify_all();
             }));
         }
+        let settled = |g: &St, t: usize| g.done[t] || (g.paused[t].is_some() && !g.go[t]);
         let wait_parked = |t: usize| -> Result<(), String> {
             let mut g = ctl.m.lock().unwrap();
-            let deadline = std::time::Instant::now() + Duration::from_secs(3);
-            while !(g.done[t] || (g.paused[t].is_some() && !g.go[t])) {
+            let deadline = std::time::Instant::now() + Duration::from_secs(5);
+            while !settled(&g, t) {
                 let (g2, to) = ctl.cv.wait_timeout(g, Duration::from_millis(200)).unwrap();
                 g = g2;
                 if to.timed_out() && std::time::Instant::now() > deadline { return Err(format!("thread {t} neither parked nor finished")); }
             }
             Ok(())
         };
+        let name_of = |t: usize| if t == 0 { "receive" } else { "api" };
+        let mut out = RaceOut { state: String::new(), violations: vec![], blocked_seen: 0 };
+        let mut blocked = [false; 2];
         let mut err = None;
         for t in 0..2 { if let Err(e) = wait_parked(t) { err = Some(e); } }
         let tail = "rsrsrsrsrsrsrsrsrsrs";
         if err.is_none() {
-            for ch in c.sched.chars().chain(tail.chars()) {
+            'sched: for (k, ch) in c.sched.chars().chain(tail.chars()).enumerate() {
                 let t = if ch == 'r' { 0 } else { 1 };
-                {
-                    let mut g = ctl.m.lock().unwrap();
-                    if g.done[t] { continue; }
-                    let at = g.paused[t].unwrap_or("");
-                    if at.ends_with(":before-lock") && g.holds[1 - t] { continue; } // would block on the probation mutex
-                    g.go[t] = true;
-                    ctl.cv.notify_all();
+                let o = 1 - t;
+                // a blocked thread must still be inside lock(): it may not have reached a point while the holder is not done
+                for b in 0..2 { if blocked[b] { let g = ctl.m.lock().unwrap(); if settled(&g, b) && !g.done[1 - b] {
+                    out.violations.push(("race:mutual-exclusion-violated".into(), format!("pick {k}: the {} thread, released at its before-lock point while the {} thread holds the probation mutex, reached {:?} before the holder finished", name_of(b), name_of(1 - b), g.paused[b])));
+                    blocked[b] = false; } } }
+                let at = { let g = ctl.m.lock().unwrap(); if g.done[t] || blocked[t] { continue; } g.paused[t].unwrap_or("") };
+                let will_block = at.ends_with(":before-lock") && conn.verif_probation_locked();
+                { let mut g = ctl.m.lock().unwrap(); g.go[t] = true; ctl.cv.notify_all(); }
+                if will_block {
+                    blocked[t] = true; out.blocked_seen += 1;
+                    std::thread::sleep(Duration::from_micros(300)); // give a thread that does NOT take the mutex time to show up
+                    continue;
                 }
-                if let Err(e) = wait_parked(t) { err = Some(e); break; }
+                if let Err(e) = wait_parked(t) { err = Some(e); break 'sched; }
+                // where did it stop?
+                let (now_at, t_done) = { let g = ctl.m.lock().unwrap(); (g.paused[t], g.done[t]) };
+                if let Some(n) = now_at { if interior(n) && !conn.verif_probation_locked() {
+                    out.violations.push(("race:critical-section-without-the-mutex".into(), format!("pick {k}: the {} thread is at `{n}` (inside its critical section) and the probation mutex is free", name_of(t)))); } }
+                // leaving the critical section hands the mutex to a blocked peer, which runs to its next point by itself
+                if t_done && blocked[o] {
+                    if let Err(e) = wait_parked(o) { err = Some(e); break 'sched; }
+                    blocked[o] = false;
+                    let g = ctl.m.lock().unwrap();
+                    if let Some(n) = g.paused[o] { if interior(n) && !conn.verif_probation_locked() {
+                        out.violations.push(("race:critical-section-without-the-mutex".into(), format!("pick {k}: the {} thread is at `{n}` and the probation mutex is free", name_of(o)))); } }
+                }
             }
         }
-        if err.is_some() { // release everything so the threads can end
+        { // release everything so the threads can end (normally both are done already)
             let mut g = ctl.m.lock().unwrap(); g.go = [true, true]; ctl.cv.notify_all(); drop(g);
             verif_sched::set(None);
-            std::thread::sleep(Duration::from_millis(50));
-            let mut g = ctl.m.lock().unwrap(); g.go = [true, true]; ctl.cv.notify_all(); drop(g);
+            if err.is_some() { std::thread::sleep(Duration::from_millis(50)); let mut g = ctl.m.lock().unwrap(); g.go = [true, true]; ctl.cv.notify_all(); }
         }
-        verif_sched::set(None);
         if let Some(e) = err { return Err(e); }
         for h in hs { let _ = h.join(); }
-        Ok(final_text(&conn))
+        out.state = final_text(&conn);
+        Ok(out)
     }
     /// the two serial executions on the real code
     fn serial(c: &RaceCase) -> [String; 2] {
@@ -1195,8 +1224,11 @@ mod race {
                     let t = text(&c);
                     match exec(&c) {
                         Err(e) => { run.fail("race:schedule-did-not-complete", &t, &e); }
-                        Ok(out) => {
+                        Ok(ro) => {
+                            let out = ro.state.clone();
                             run.case("race", t.trim_start_matches("race "), &out, true);
+                            run.count_n("race_acquisitions_observed_blocking_on_the_mutex", ro.blocked_seen);
+                            for (sig, d) in &ro.violations { run.fail(sig, &t, d); }
                             let ser = serial(&c);
                             if out != ser[0] && out != ser[1] {
                                 run.fail(&format!("race:{}:outcome-not-serializable", match api { Api::Sig(..) => "signaling-retarget", Api::Reset => "reset", Api::Pair(..) => "pair-update" }),
@@ -1211,8 +1243,9 @@ mod race {
     }
     pub fn replay(case: &str) {
         let c = parse(case);
-        match exec(&c) { Err(e) => println!("schedule did not complete: {e}"), Ok(o) => { println!("impl: {o}"); let s = serial(&c);
-            println!("receive-then-api: {}\napi-then-receive: {}", s[0], s[1]);
+        match exec(&c) { Err(e) => println!("schedule did not complete: {e}"), Ok(ro) => { let o = ro.state; println!("impl: {o}"); let s = serial(&c);
+            println!("receive-then-api: {}\napi-then-receive: {}\nacquisitions observed blocking: {}", s[0], s[1], ro.blocked_seen);
+            for (sig, d) in ro.violations { println!("ORACLE-FAIL {sig} {d}"); }
             if o != s[0] && o != s[1] { println!("ORACLE-FAIL race:outcome-not-serializable"); } } }
     }
 }
